@@ -8,20 +8,30 @@
 (* LRU invariant holds in every state.  The lock mode of each method is a  *)
 (* parameter: the check instantiates it with the table *measured* on the   *)
 (* real code through the verif hook (VerifLockState inside the method).    *)
+(* The mutex is Go's sync.RWMutex: a writer first announces itself         *)
+(* (pendingW) and then waits for the active readers; a reader is admitted  *)
+(* only while no writer holds or is waiting for the lock - so a method     *)
+(* that re-acquires the read lock while holding it (a locked method        *)
+(* calling another locked method; measured as Nested) deadlocks as soon as *)
+(* a writer arrives in between, and TLC finds that interleaving.           *)
 (***************************************************************************)
 EXTENDS LRU, TLC, IOUtils, Json
 
 CONSTANTS Procs, MaxOps
 
-VARIABLES pc, cur, writer, readers, nops
-cvars == <<vars, pc, cur, writer, readers, nops>>
-cview == <<view, pc, cur, writer, readers, nops>>
+VARIABLES pc, cur, writer, readers, nops, pendingW, rdepth
+cvars == <<vars, pc, cur, writer, readers, nops, pendingW, rdepth>>
+cview == <<view, pc, cur, writer, readers, nops, pendingW, rdepth>>
 
 Ops == {"Store", "Load", "Delete", "Len", "Dump"}
 \* measured lock table, e.g. LM_Store=W ; "W" exclusive, "R" shared, "N" none
 LockMode(op) == CASE op = "Store" -> IOEnv.LM_Store [] op = "Load" -> IOEnv.LM_Load
                   [] op = "Delete" -> IOEnv.LM_Delete [] op = "Len" -> IOEnv.LM_Len
                   [] op = "Dump" -> IOEnv.LM_Dump
+\* measured nesting: the locked method (if any) that `op` calls while still holding its own lock, else "none"
+Nested(op) == CASE op = "Store" -> IOEnv.NEST_Store [] op = "Load" -> IOEnv.NEST_Load
+                [] op = "Delete" -> IOEnv.NEST_Delete [] op = "Len" -> IOEnv.NEST_Len
+                [] op = "Dump" -> IOEnv.NEST_Dump
 \* an operation writes shared state iff its LRU action can change order/val/idx/dels
 Writes(op) == op \in {"Store", "Load", "Delete"}
 
@@ -34,6 +44,8 @@ CInit == /\ Init
          /\ writer = NoProc
          /\ readers = {}
          /\ nops = [p \in Procs |-> 0]
+         /\ pendingW = {}
+         /\ rdepth = [p \in Procs |-> 0]
 
 Invoke(p) == /\ pc[p] = "idle" /\ nops[p] < MaxOps
              /\ \E op \in Ops, k \in Keys, v \in Vals :
@@ -42,15 +54,32 @@ Invoke(p) == /\ pc[p] = "idle" /\ nops[p] < MaxOps
                                               v |-> IF op = "Store" THEN v ELSE None]]
              /\ pc' = [pc EXCEPT ![p] = "want"]
              /\ nops' = [nops EXCEPT ![p] = @ + 1]
-             /\ UNCHANGED <<vars, writer, readers>>
+             /\ UNCHANGED <<vars, writer, readers, pendingW, rdepth>>
+
+\* sync.RWMutex admission rules
+CanRead == writer = NoProc /\ pendingW = {}
+CanWrite(p) == writer = NoProc /\ \A q \in Procs : rdepth[q] = 0
 
 Acquire(p) == /\ pc[p] = "want"
               /\ LET m == LockMode(cur[p].op) IN
-                 CASE m = "W" -> writer = NoProc /\ readers = {} /\ writer' = p /\ UNCHANGED readers
-                   [] m = "R" -> writer = NoProc /\ readers' = readers \cup {p} /\ UNCHANGED writer
-                   [] OTHER   -> UNCHANGED <<writer, readers>>
-              /\ pc' = [pc EXCEPT ![p] = "in"]
+                 CASE m = "W" -> /\ pendingW' = pendingW \cup {p}          \* Lock(): announce, then wait for readers
+                                 /\ pc' = [pc EXCEPT ![p] = "wantw"]
+                                 /\ UNCHANGED <<writer, readers, rdepth>>
+                   [] m = "R" -> /\ CanRead
+                                 /\ readers' = readers \cup {p}
+                                 /\ rdepth' = [rdepth EXCEPT ![p] = @ + 1]
+                                 /\ pc' = [pc EXCEPT ![p] = "in"]
+                                 /\ UNCHANGED <<writer, pendingW>>
+                   [] OTHER   -> /\ pc' = [pc EXCEPT ![p] = "in"]
+                                 /\ UNCHANGED <<writer, readers, pendingW, rdepth>>
               /\ UNCHANGED <<vars, cur, nops>>
+
+AcquireW(p) == /\ pc[p] = "wantw"
+               /\ CanWrite(p)
+               /\ writer' = p
+               /\ pendingW' = pendingW \ {p}
+               /\ pc' = [pc EXCEPT ![p] = "in"]
+               /\ UNCHANGED <<vars, cur, nops, readers, rdepth>>
 
 Enter(p) == /\ pc[p] = "in"
             /\ LET c == cur[p] IN
@@ -59,29 +88,54 @@ Enter(p) == /\ pc[p] = "in"
                  [] c.op = "Delete" -> Delete(c.k)
                  [] c.op = "Len" -> LenOp
                  [] c.op = "Dump" -> DumpOp
-            /\ pc' = [pc EXCEPT ![p] = "out"]
-            /\ UNCHANGED <<cur, writer, readers, nops>>
+            /\ pc' = [pc EXCEPT ![p] = IF Nested(cur[p].op) = "none" THEN "out" ELSE "nwant"]
+            /\ UNCHANGED <<cur, writer, readers, nops, pendingW, rdepth>>
+
+\* the inner locked call of a nesting method: acquires its own lock mode while the outer one is still held
+NAcquire(p) == /\ pc[p] = "nwant"
+               /\ LET m == LockMode(Nested(cur[p].op)) IN
+                  CASE m = "W" -> /\ pendingW' = pendingW \cup {p}
+                                  /\ pc' = [pc EXCEPT ![p] = "nwantw"]
+                                  /\ UNCHANGED <<rdepth>>
+                    [] m = "R" -> /\ CanRead
+                                  /\ rdepth' = [rdepth EXCEPT ![p] = @ + 1]
+                                  /\ pc' = [pc EXCEPT ![p] = "nin"]
+                                  /\ UNCHANGED pendingW
+                    [] OTHER   -> /\ pc' = [pc EXCEPT ![p] = "nin"]
+                                  /\ UNCHANGED <<pendingW, rdepth>>
+               /\ UNCHANGED <<vars, cur, nops, writer, readers>>
+\* (an exclusive re-acquisition waits for rdepth = 0 everywhere and for writer = NoProc: never, it holds one itself)
+NAcquireW(p) == /\ pc[p] = "nwantw" /\ CanWrite(p)
+                /\ writer' = p /\ pendingW' = pendingW \ {p}
+                /\ pc' = [pc EXCEPT ![p] = "nin"]
+                /\ UNCHANGED <<vars, cur, nops, readers, rdepth>>
+NRelease(p) == /\ pc[p] = "nin"
+               /\ rdepth' = [rdepth EXCEPT ![p] = IF LockMode(Nested(cur[p].op)) = "R" THEN @ - 1 ELSE @]
+               /\ pc' = [pc EXCEPT ![p] = "out"]
+               /\ UNCHANGED <<vars, cur, nops, writer, readers, pendingW>>
 
 Release(p) == /\ pc[p] = "out"
               /\ writer' = IF writer = p THEN NoProc ELSE writer
               /\ readers' = readers \ {p}
+              /\ rdepth' = [rdepth EXCEPT ![p] = 0]
               /\ pc' = [pc EXCEPT ![p] = "idle"]
               /\ cur' = [cur EXCEPT ![p] = Idle]
-              /\ UNCHANGED <<vars, nops>>
+              /\ UNCHANGED <<vars, nops, pendingW>>
 
 AllDone == \A p \in Procs : pc[p] = "idle" /\ nops[p] = MaxOps
 Finished == AllDone /\ UNCHANGED cvars
 
-CNext == \/ \E p \in Procs : Invoke(p) \/ Acquire(p) \/ Enter(p) \/ Release(p)
+CNext == \/ \E p \in Procs : Invoke(p) \/ Acquire(p) \/ AcquireW(p) \/ Enter(p) \/ NAcquire(p) \/ NAcquireW(p) \/ NRelease(p) \/ Release(p)
          \/ Finished
 CSpec == CInit /\ [][CNext]_cvars /\ WF_cvars(CNext)
 
 ----------------------------------------------------------------------------
-Inside(p) == pc[p] \in {"in", "out"}
+Inside(p) == pc[p] \in {"in", "out", "nwant", "nwantw", "nin"}
 RacePair(p, q) == p # q /\ Inside(p) /\ Inside(q) /\ (Writes(cur[p].op) \/ Writes(cur[q].op))
 NoRace == \A p, q \in Procs :
             RacePair(p, q) => PrintT("@@RACE " \o ToJson([a |-> cur[p].op, b |-> cur[q].op])) /\ FALSE
 LockSane == /\ (writer # NoProc => readers = {})
+            /\ \A p \in Procs : (p \in readers) <=> (rdepth[p] > 0)
             /\ \A p \in Procs : (writer = p \/ p \in readers) => Inside(p)
 EventuallyDone == <>AllDone
 =============================================================================
